@@ -1,4 +1,4 @@
-import BM.Props.C18b
+import BM.Props.C18c
 import BM.Props.SrcPin.C18
 /- Top module of property C18: its theorems (BM.Props.C18) and the statement of which units of /repo's
    source its model and proofs were written against (BM/Props/SrcPin/C18.lean, re-checked against the
